@@ -495,6 +495,10 @@ class Simulator(EventProducer, SimulatorInterface, Generic[TIME]):
         return self._replication_state
 
     def end_replication(self):
+        if (not self.is_initialized() 
+                or self._replication_state == ReplicationState.ENDED):
+            raise DSOLError("cannot end the replication of an uninitialized "
+                            +"or ended simulator")
         self._replication_state = ReplicationState.ENDING
         self.__worker.wakeup()  # just to be sure
         if self._simulator_time < self._replication.end_sim_time:
